@@ -24,6 +24,10 @@ partial def loop (h : IO.FS.Stream) (out : IO.FS.Stream) (types : Array Ty) : IO
     let r := runB t a16.toNat! (p == "P1") (if sfx == "-" then none else some (parseHex sfx)) (parseHex hx)
     out.putStrLn r
     loop h out types
+  | ["C", tid, _place, a16, _kind, _lo, _hi, hx] =>
+    let t := types[tid.toNat!]?.getD (.prim 0 1)
+    out.putStrLn (runB t a16.toNat! false none (parseHex hx))
+    loop h out types
   | "E" :: tid :: _place :: a16 :: "new" :: rest =>
     let t := types[tid.toNat!]?.getD (.prim 0 1)
     let pre := parseHex (rest.getLast?.getD "-")
